@@ -73,8 +73,11 @@ def run_tlc(module, cfg, tag, workers=None, extra=None, env=None, timeout=1800, 
     with open(outf, "w") as f:
         p = subprocess.run(cmd, cwd=SPEC, env=e, stdout=f, stderr=subprocess.STDOUT, text=True)
     shutil.rmtree(meta, ignore_errors=True)
-    rnd = random.Random(seed())
-    printed = {t: [] for t in keep_tags}
+    # lines are sampled DETERMINISTICALLY whatever order TLC's workers print them in:
+    # the max_keep lines with the smallest hash(seed, line) are kept, then sorted
+    import heapq
+    sd = str(seed()).encode()
+    heaps = {t: [] for t in keep_tags}
     counts = {t: 0 for t in keep_tags}
     rest = []
     prefixes = {t: '<<"%s", ' % t for t in keep_tags}
@@ -85,16 +88,18 @@ def run_tlc(module, cfg, tag, workers=None, extra=None, env=None, timeout=1800, 
                 if line.startswith(pre):
                     hit = True
                     counts[t] += 1
-                    lst = printed[t]
-                    if len(lst) < max_keep:
-                        lst.append(line)
-                    else:
-                        j = rnd.randrange(counts[t])
-                        if j < max_keep:
-                            lst[j] = line
+                    h = hashlib.sha1(sd + line.encode()).digest()
+                    hp = heaps[t]
+                    # max-heap on the hash (store negated bytes via tuple of ints is slow: use int)
+                    hv = int.from_bytes(h[:8], "big")
+                    if len(hp) < max_keep:
+                        heapq.heappush(hp, (-hv, line))
+                    elif -hp[0][0] > hv:
+                        heapq.heapreplace(hp, (-hv, line))
                     break
             if not hit and len(rest) < 20000:
                 rest.append(line)
+    printed = {t: [l for _, l in sorted(heaps[t], key=lambda x: (-x[0], x[1]))] for t in keep_tags}
     try:
         os.remove(outf)
     except OSError:
